@@ -234,3 +234,27 @@ def family_stream(rng, count, big=False):
         else:
             out.append(rng.choice([lambda r_, name: beale(name), empty_rows_cols])(rng, name="mx%d" % i))
     return out
+
+
+# ----------------------------------------------------------------------------- corpus
+import json, os, glob
+
+
+def lp_to_json(lp):
+    return dict(name=lp["name"], max=lp["max"], cols=[[n, qs(o), qs(l), qs(u)] for n, o, l, u in lp["cols"]],
+                rows=[[n, s, qs(r), qs(g), [[j, qs(v)] for j, v in ent]] for n, s, r, g, ent in lp["rows"]])
+
+
+def lp_from_json(d):
+    def b(x):
+        return x if x in (INF, NINF) else F(x)
+    return dict(name=d["name"], max=d["max"], cols=[(n, F(o), b(l), b(u)) for n, o, l, u in d["cols"]],
+                rows=[(n, s, F(r), F(g), [(j, F(v)) for j, v in ent]) for n, s, r, g, ent in d["rows"]])
+
+
+def load_corpus(pid):
+    base = os.path.join(os.path.dirname(os.path.dirname(os.path.abspath(__file__))), "corpus", pid)
+    out = []
+    for f in sorted(glob.glob(os.path.join(base, "*.json"))):
+        out.append(lp_from_json(json.load(open(f))))
+    return out
